@@ -869,7 +869,8 @@ def _signature_args(ctx) -> list[Inst]:
 
 # ------------------------------------------------------------------------------------------------
 STALE_READERS = [('AttackGraph._from_dict', ('C10', 'C09')), ('Model._from_dict', ('C07',)),
-                 ('load_model_from_scad_archive', ('C18',)), ('get_model', ('C19',))]
+                 ('load_model_from_scad_archive', ('C18',)), ('get_model', ('C19',)),
+                 ('load_model_from_version_0_0_39._process_model', ('C18',))]
 
 
 def _stale_locals(ctx) -> list[Inst]:
@@ -944,6 +945,53 @@ def _stale_locals(ctx) -> list[Inst]:
                         insts.append(Inst(RULE, fname, construct, 'unproven',
                                           msg=f"'{v}' is carried across iterations under a test of '{v}' itself",
                                           file=rel, line=n.lineno, props=props))
+        # (ix') the hoisted container: `acc = []` BEFORE the per-record loop, filled inside it and handed to the object
+        # built for the record (constructor / add_* argument, attribute) without being re-created per record - every
+        # record's object then holds the very same list, with the entries of all records
+        for h in [n for n in cfg.nodes if n.kind == 'for']:
+            inside = [n for n in cfg.nodes if _in_loop(n, h)]
+            bound_inside = set()
+            for n in inside:
+                bound_inside.update(cfg.defs_of(n))
+            outer_inits = {}
+            for n in cfg.nodes:
+                if n.kind == 'stmt' and isinstance(n.ast, (ast.Assign, ast.AnnAssign)) and not _in_loop(n, h) \
+                        and n.loop is h.loop and getattr(n.ast, 'value', None) is not None:
+                    v_ = n.ast.value
+                    empty = (isinstance(v_, (ast.List, ast.Dict, ast.Set)) and not (getattr(v_, 'elts', None) or getattr(v_, 'keys', None))) \
+                        or (isinstance(v_, ast.Call) and isinstance(v_.func, ast.Name) and v_.func.id in ('list', 'dict', 'set') and not v_.args)
+                    tg = n.ast.targets[0] if isinstance(n.ast, ast.Assign) else n.ast.target
+                    if empty and isinstance(tg, ast.Name) and cfg.dominates(n, h):
+                        outer_inits[tg.id] = n
+            for v, initn in sorted(outer_inits.items()):
+                if v in bound_inside:
+                    continue
+                filled = handed = None
+                for n in inside:
+                    for r in _stmt_roots(n):
+                        for c in ast.walk(r):
+                            if isinstance(c, ast.Call) and isinstance(c.func, ast.Attribute) and isinstance(c.func.value, ast.Name) \
+                                    and c.func.value.id == v and c.func.attr in ('append', 'extend', 'add', 'update', 'insert'):
+                                filled = c
+                            if isinstance(c, ast.Call):
+                                nm = c.func.attr if isinstance(c.func, ast.Attribute) else (
+                                    c.func.id if isinstance(c.func, ast.Name) else '')
+                                if nm[:1].isupper() or nm.startswith('add_'):
+                                    for a in list(c.args) + [k.value for k in c.keywords]:
+                                        if isinstance(a, ast.Name) and a.id == v:
+                                            handed = c
+                        if isinstance(n.ast, ast.Assign) and isinstance(n.ast.targets[0], ast.Attribute) \
+                                and isinstance(n.ast.value, ast.Name) and n.ast.value.id == v:
+                            handed = n.ast
+                if filled is not None and handed is not None:
+                    checked += 1
+                    insts.append(Inst(
+                        RULE, fname, f"(ix) '{v}' handed to the object of each record is created per record", 'violation',
+                        msg=(f"'{v}' is created once at line {initn.lineno}, before 'for {stmt_text(h.ast.target)} in "
+                             f"{stmt_text(h.ast.iter, 50)}', filled by '{stmt_text(filled, 50)}' and given to "
+                             f"'{stmt_text(handed, 60)}' in every iteration: all records share ONE list holding the entries "
+                             f"of all of them (with two attackers, each gets the entry points of both)"),
+                        file=rel, line=initn.lineno, props=props))
         if not checked:
             insts.append(Inst(RULE, fname, '(ix) per-record locals', 'info', msg='no per-record local feeds a constructor',
                               file=rel, line=f.node.lineno, props=props, nontrivial=False))
